@@ -289,4 +289,31 @@ example : run Mon.init (transportBoundary ++ [⟨.data 3 1 (-1) false, [.closed]
 example : run Mon.init (transportBoundary.take 4 ++ [⟨.data 3 3616 (-1) false, [.connerr 3, .closed]⟩]) =
     .error "flow-control-error-within-window" := rfl
 
+/-! #### literal wire reading for the Transport (known finding `transport-goaway-not-flushed`) -/
+
+/-- The literal reading: whenever a Transport line with DATA beyond an advertised window is
+accepted, GOAWAY(FLOW_CONTROL_ERROR) is on the wire. `excess_is_refused` proves the weaker
+"GOAWAY on the wire or ConnectionError(FLOW_CONTROL_ERROR) at the application". -/
+def WireStatement : Prop :=
+  ∀ (m m' : Mon) (sid : Nat) (len pad : Int) (es : Bool) (obs : List Obs),
+    m.started = true → m.dead = false →
+    lineStep m ⟨.data sid len pad es, obs⟩ = .ok m' →
+    (dataAct m sid len pad es).expectFC = some 0 → Obs.goaway errFlowControl ∈ obs
+
+/-- Monitor state after `transportBoundary` (stream 3 has exactly 0 bytes of window left). -/
+def mBoundary : Mon :=
+  match run Mon.init transportBoundary with
+  | .ok m => m
+  | .error _ => Mon.init
+
+/-- **C11.wire_statement_false.** The trace recorded from the real Transport (corpus/C11/tboundary.rigs.ops
+case 0: the connection error reaches the application, the connection is closed, no GOAWAY is
+flushed) is accepted and contains no GOAWAY. -/
+theorem wire_statement_false : ¬ WireStatement := by
+  intro h
+  have hl : ∃ m', lineStep mBoundary ⟨.data 3 1 (-1) false, [.connerr 3, .closed]⟩ = .ok m' := ⟨_, rfl⟩
+  obtain ⟨m', hm'⟩ := hl
+  have := h mBoundary m' 3 1 (-1) false [.connerr 3, .closed] rfl rfl hm' rfl
+  simp at this
+
 end NetVerif.Proofs.C11
